@@ -43,6 +43,8 @@ def compare(ctx, job, m, o, tag, failed):
         if of["values"].get(k) != v:
             return ctx.violation("value", wit, f"{k}: nested {v} flat {of['values'].get(k)}")
     for k in of["values"]:
+        if job["flat"]["selected"] != IR.UNSET:
+            break      # see HGProps!C05 `exposed`
         if k not in hidden and k not in o["values"]:
             return ctx.violation("missing-output", wit, f"{k} returned by the flat graph is not exposed by the nesting")
     for k in o["values"]:
